@@ -229,7 +229,7 @@ impl Scenario for C12Des {
       if d.handles() == 0 {
         break;
       }
-      match &st.op {
+      let step = std::panic::catch_unwind(std::panic::AssertUnwindSafe(|| match &st.op {
         Op::Next | Op::NextBy => {
           let v = if st.op == Op::Next {
             n += 1;
@@ -308,11 +308,11 @@ impl Scenario for C12Des {
         }
         Op::ArmInside(k) => {
           if finished || armed.iter().any(|(t, _)| t == k) {
-            continue;
+            return;
           }
           if let Some(trigger) = probes.get(*k).cloned() {
             if !live.contains(k) {
-              continue;
+              return;
             }
             let nk = logs.len();
             let bp = BProbe::new();
@@ -360,6 +360,13 @@ impl Scenario for C12Des {
           }
           trace.push_str(if st.op == Op::Complete { "complete " } else { "error " });
         }
+      }));
+      if let Err(pl) = step {
+        if violation.is_none() {
+          // BorrowMutError (local form) / self-deadlock on a cell it already holds (thread-safe form)
+          violation = Some(Violation { rule: "c12.panic".into(), site: site.clone(), detail: format!("after `{}` the step {:?} panicked: {}", trace.trim(), st.op, panic_message(&*pl)) });
+        }
+        break;
       }
       if violation.is_none() {
         for (k, l) in logs.iter().enumerate() {
